@@ -127,7 +127,10 @@ typedef unsigned long uint64_t;
 
 typedef int (*cmpfun)(const void *, const void *, void *);
 #ifdef HAVE___BUILTIN_CTZ
-#define ntz(x) __builtin_ctz((x))
+/* the operand is a size_t: __builtin_ctz would only look at its low int */
+#define ntz(x)                                                                \
+    (sizeof(size_t) > sizeof(unsigned int) ? __builtin_ctzll((x))             \
+                                           : __builtin_ctz((x)))
 #else
 static const char debruijn32[32] = {0,  1,  23, 2,  29, 24, 19, 3,  30, 27, 25,
                                     11, 20, 8,  4,  13, 31, 22, 28, 18, 26, 10,
